@@ -92,6 +92,11 @@ UnLayer(fam, S) ==
          Un(S, IF fam = "spn" THEN {"tospan", "toslice", "mw", "ornot", "rewind"} ELSE {"tospan", "mw", "ornot", "rewind"})
          \cup {<<"collect", r, "vec">> : r \in Reps(S, {<<0, Inf>>})}
          \cup {<<"validate", a, "1", "F">> : a \in S} \cup UnP(S, "trymap", {"F"})
+    [] fam = "drp" ->
+         Un(S, {"ornot"}) \cup UnP(S, "map", {"f"})
+         \cup {<<"collect", r, "vec">> : r \in Reps(S, {<<0, Inf>>})}
+         \cup {<<"exact", r, n>> : r \in Reps(S, {<<0, Inf>>, <<0, 1>>}), n \in {2, 3}}
+         \cup {<<"grouparr", <<a>>>> : a \in S} \cup {<<"recover", a, <<"via", <<"to", <<"any">>, "r">>>>>> : a \in S}
     [] fam = "nst" ->
          Un(S, {"ornot"}) \cup {<<"nested", a, b>> : a \in S, b \in NestB}
          \cup {<<"collect", r, "vec">> : r \in Reps(S, {<<0, Inf>>})}
@@ -114,6 +119,9 @@ BinLayer(fam, S1, S2) ==
     [] fam = "memo" -> Bin(S1, S2, {"then", "or", "andis"})
     [] fam = "ctx" -> Bin(S1, S2, {"then", "or", "thenctx", "ignctx"})
     [] fam = "nst" -> Bin(S1, S2, {"then", "or"})
+    [] fam = "drp" -> Bin(S1, S2, {"then", "or"})
+                      \cup {<<"grouparr", <<a, b>>>> : a \in S1, b \in S2} \cup {<<"group", <<a, b>>>> : a \in S1, b \in S2}
+                      \cup {<<"foldl", a, <<"rep", b, 0, Inf>>, "g">> : a \in S1, b \in {x \in S2 : ~CanEmpty(x)}}
     [] fam = "rep" -> Bin(S1, S2, {"then", "or"})
                       \cup {<<"collect", <<"sep", a, b, lh[1], lh[2], l, t>>, "vec">> :
                               a \in {x \in S1 : ~CanEmpty(x)}, b \in S2, lh \in {<<0, Inf>>, <<1, 2>>, <<2, Inf>>, <<0, 0>>},
@@ -130,6 +138,7 @@ LeavesOf(fam) ==
     [] fam = "rcv" -> {J("a"), J("b"), JJ("a", "b"), <<"any">>}
     [] fam = "lbl" -> {J("a"), J("b"), JJ("a", "b"), <<"any">>, <<"end">>, <<"cust", 1, FALSE>>}
     [] fam = "memo" -> {J("a"), J("b"), JJ("a", "b"), <<"any">>, <<"cust", 1, FALSE>>}
+    [] fam = "drp" -> {J("a"), <<"map", <<"any">>, "f">>, <<"to", J("b"), "k">>, <<"sel", <<"a">>>>}
     [] fam = "nst" -> {J("a"), J("b"), <<"any">>, <<"validate", <<"any">>, "1", "F">>, <<"cust", 1, FALSE>>}
     [] fam = "ctx" -> {J("a"), JJ("a", "b"), <<"any">>, <<"cfgjust">>, <<"cfgjustr">>, <<"mw", <<"any">>>>}
 
@@ -224,9 +233,18 @@ LDecor(x) == {<<"label", x, "L", FALSE>>, <<"label", x, "L", TRUE>>, <<"maperr",
 LblTemplates ==
   UNION {{<<"then", d, fo>> : d \in LDecor(x), fo \in {J("c"), J("b"), <<"then", J("b"), J("c")>>}} : x \in LInner}
   \cup UNION {{<<"or", <<"then", J("a"), <<"then", J("b"), J("c")>>>>, <<"then", d, J("c")>>>> : d \in LDecor(x)} : x \in LInner}
-Templates(fam) == CASE fam = "memoT" -> MemoTemplates [] fam = "rcvT" -> RcvTemplates [] fam = "lblT" -> LblTemplates
+(* C19: fixed-size collection that fails part-way: arrays of three, nested arrays, inside repetition and recovery *)
+DLeaves == {<<"map", <<"any">>, "f">>, <<"to", J("b"), "k">>, J("a"), <<"map", J("a"), "f">>}
+DArr3 == {<<"grouparr", <<x, y, z>>>> : x \in DLeaves, y \in DLeaves, z \in DLeaves}
+DrpTemplates ==
+  DArr3 \cup {<<"or", g, RestCap>> : g \in DArr3}
+  \cup {<<"collect", <<"rep", <<"grouparr", <<x, y>>>>, 0, Inf>>, "vec">> : x \in DLeaves, y \in DLeaves}
+  \cup {<<"grouparr", <<<<"grouparr", <<x, y>>>>, z>>>> : x \in DLeaves, y \in DLeaves, z \in DLeaves}
+  \cup {<<"then", <<"ornot", <<"exact", <<"rep", x, 0, Inf>>, 3>>>>, RestCap>> : x \in DLeaves}
+  \cup {<<"recover", g, <<"via", <<"to", <<"any">>, "r">>>>>> : g \in {<<"grouparr", <<x, y>>>> : x \in DLeaves, y \in DLeaves}}
+Templates(fam) == CASE fam = "memoT" -> MemoTemplates [] fam = "drpT" -> DrpTemplates [] fam = "rcvT" -> RcvTemplates [] fam = "lblT" -> LblTemplates
                     [] fam = "pratt" -> PrattTemplates [] fam = "rec" -> RecTemplates [] fam = "lrec" -> LRecTemplates [] fam = "repT" -> RepTemplates
-TemplateFams == {"rec", "lrec", "repT", "pratt", "memoT", "rcvT", "lblT"}
+TemplateFams == {"rec", "lrec", "repT", "pratt", "memoT", "rcvT", "lblT", "drpT"}
 
 Grammars == IF Fam \in TemplateFams THEN Templates(Fam)
             ELSE {g \in UNION {GSz(Fam, n) : n \in 1..MaxSize} : WF(g)}
@@ -348,6 +366,10 @@ Flat(v) ==
 PrattFlatten ==
   (st.done /\ result.ok /\ TopMode = "E" /\ Fam = "pratt") => Flat(result.out) = Toks
 
+(* C19: every tracked value is either in the returned output or has been dropped: nothing is   *)
+(* lost at the sites that manage initialisation by hand (group over arrays, collect_exactly)   *)
+NoLeak == KfClean => st.leaked = 0
+
 (* C20: no "can't fail" unwrap is ever hit, and the machine makes progress *)
 NoPanic == ~st.panicked
 StepBound == st.steps <= 400
@@ -359,7 +381,7 @@ ReplayRec ==
   [cid |-> cid, g |-> G, inp |-> Toks, kind |-> Case.kind, ety |-> Ety, mode |-> TopMode,
    kf |-> {s \in DOMAIN kf : kf[s] = "on" /\ ~IsOpen(s)},
    res |-> [ok |-> result.ok, out |-> result.out, errs |-> [i \in DOMAIN result.errs |-> ErrJson(result.errs[i])],
-            panic |-> result.panic, insp |-> result.insp],
+            panic |-> result.panic, insp |-> result.insp, leaked |-> result.leaked],
    obs |-> obs]
 Replay == st.done => PrintT("REPLAY " \o ToJson(ReplayRec))
 
@@ -401,8 +423,9 @@ MatchesMask(m) ==
   /\ MatchErrs(m.errs, result.ok, r.res.errs, result.errs)
   /\ MatchObs(m.obs, r.obs, obs)
   /\ (m.insp /\ result.ok) => r.res.insp = result.insp
+  /\ (m.leak /\ ~result.panic) => r.res.leaked = result.leaked
 Matches == MatchesMask(Rec[cid].mask)
-FullMask == [out |-> TRUE, errs |-> "all", obs |-> "all", insp |-> TRUE]
+FullMask == [out |-> TRUE, errs |-> "all", obs |-> "all", insp |-> TRUE, leak |-> TRUE]
 (* the verdict carries both the match on the fields the property pins and the match on the    *)
 (* full observation (the driver uses the latter to attribute a failed real-only assertion to  *)
 (* a known defect branch)                                                                     *)
